@@ -71,7 +71,7 @@ def read_graph(graph_raw) -> nx.DiGraph:
             break
         stripped = graph_raw[idx].lstrip()
         # Subpath constraint line: starts with '#S'
-        if stripped.startswith("#S"):
+        if stripped.split()[0] == "#S":      # (the token '#S', not any header text that happens to begin with an S: '#Species=...', '#SRR123')
             # Remove leading '#S' and split remaining node sequence
             nodes_part = stripped[2:].strip()  # drop '#S'
             if nodes_part:
